@@ -190,6 +190,11 @@ GRV_CMD(facelife) {
                 for (unsigned q = 0; q < gr_face_n_fref(face); ++q) rep += std::to_string(gr_fref_feature_value(gr_face_fref(face, gr_uint16(q)), fvals.back())) + ",";
                 h = std::to_string(fnv(rep)); key = "fv" + std::to_string(fvlang.back());
             }
+            else if (op == "edit_fval") {   // every feature of the newest object is set to its last (usually highest) value, in place
+                for (unsigned q = 0; q < gr_face_n_fref(face); ++q) { const gr_feature_ref *r = gr_face_fref(face, gr_uint16(q)); const unsigned nv = gr_fref_n_values(r);
+                    if (nv) gr_fref_set_feature_value(r, gr_uint16(gr_fref_value(r, gr_uint16(nv - 1))), fvals.back()); }
+                fvlang.back() = 2 + (fvlang.back() & 1);      // 2: was the defaults, 3: was the language's settings
+            }
             else if (op == "destroy_fval") { gr_featureval_destroy(fvals.back()); fvals.pop_back(); fvlang.pop_back(); }
             else if (op == "make_font") { const float ppm = arg ? float(arg) : 16.5f; gr_font *gf = gr_make_font(ppm, face); fonts.push_back(gf); fontppm.push_back(ppm); ok = gf != 0; }
             else if (op == "destroy_font") { gr_font_destroy(fonts.back()); fonts.pop_back(); fontppm.pop_back(); }
@@ -200,7 +205,7 @@ GRV_CMD(facelife) {
                 GRV_WATCHDOG;
                 gr_segment *s = gr_make_seg(fonts.empty() ? 0 : fonts.back(), face, 0, fvals.empty() ? 0 : fvals.back(), gr_utf8, t.data(), nch, awami ? 1 : 0);
                 segs.push_back(s); ok = s != 0;
-                key = "t" + std::to_string(size_t(arg) % tl.size()) + ":p" + std::to_string(fonts.empty() ? 0 : int(fontppm.back() * 10)) + (!fvlang.empty() && fvlang.back() ? ":lang" : "");
+                key = "t" + std::to_string(size_t(arg) % tl.size()) + ":p" + std::to_string(fonts.empty() ? 0 : int(fontppm.back() * 10)) + (fvlang.empty() || !fvlang.back() ? "" : fvlang.back() == 2 ? ":edited0" : fvlang.back() == 3 ? ":edited1" : ":lang");
                 segkeys.push_back(key);
                 SegP p = project(s, face, fonts.empty() ? 0 : fonts.back(), kind != "badglyph");
                 if (!p.wf.empty()) { vj::W w; w.str("kind", kind).i("text", arg); report_fail(p.wfprop.c_str(), p.wf, w.done()); }
@@ -211,8 +216,10 @@ GRV_CMD(facelife) {
                 const std::string &t = tl[size_t(arg) % tl.size()];
                 const size_t nch = gr_count_unicode_characters(gr_utf8, t.data(), t.data() + t.size(), 0);
                 GRV_WATCHDOG;
-                gr_segment *s = gr_make_seg(fonts.empty() ? 0 : fonts.back(), face, 0, 0, gr_utf8, t.data(), nch, awami ? 1 : 0);
-                key = "t" + std::to_string(size_t(arg) % tl.size()) + ":p" + std::to_string(fonts.empty() ? 0 : int(fontppm.back() * 10));
+                // (shaped with the client's newest feature-value object when it has one, like make_seg)
+                gr_segment *s = gr_make_seg(fonts.empty() ? 0 : fonts.back(), face, 0, fvals.empty() ? 0 : fvals.back(), gr_utf8, t.data(), nch, awami ? 1 : 0);
+                key = "t" + std::to_string(size_t(arg) % tl.size()) + ":p" + std::to_string(fonts.empty() ? 0 : int(fontppm.back() * 10))
+                      + (fvlang.empty() || !fvlang.back() ? "" : fvlang.back() == 2 ? ":edited0" : fvlang.back() == 3 ? ":edited1" : ":lang");
                 SegP p = project(s, face, fonts.empty() ? 0 : fonts.back(), kind != "badglyph");
                 if (!p.wf.empty()) { vj::W w; w.str("kind", kind).i("text", arg); report_fail(p.wfprop.c_str(), p.wf, w.done()); }
                 h = std::to_string(fnv(dump(p)));
